@@ -4,7 +4,9 @@
    Two facts are proved elsewhere and enter here as hypotheses of the section (the lemmas of
    this file are implications from them; C01_proofs.v / C02_proofs.v instantiate them):
      [viap_statement]  the equivalence for VariablesInAllowedPosition (proofs/C07_position_proofs.v,
-                       lemma variables_in_allowed_position_iff),
+                       lemma variables_in_allowed_position_iff); it holds for documents whose
+                       variable default values are constants ([defaults_const d], defined there),
+                       and this hypothesis is inherited by everything that involves that rule,
      [fuel_statement]  no rule other than field merging exhausts its fuel (proofs/C03_proofs.v,
                        lemma no_fuel_exhaustion).
    [wf_document_no_panic] (the third ingredient) is proved here. *)
@@ -14,11 +16,13 @@ From GTS Require Import Annot WfSchema SpecRules SpecValues SpecValid.
 From GTP Require Import PlanFacts
   C04_proofs C06_proofs C06_graph_proofs C07_proofs C07_graph_proofs C08_proofs
   C09_proofs C09_slot_proofs C10_proofs C10_slot_proofs C11_proofs.
+From GTP Require Import C07_position_proofs.
 
 Definition viap_statement : Prop := forall s d,
   wf_schema s = true -> doc_types_proper d = true ->
   distinct_fragments d = true -> distinct_operations d = true ->
   negb (violated R_VariablesAreInputTypes s d) = true ->
+  defaults_const d = true ->
   (run_alone R_VariablesInAllowedPosition s d <> [] <-> violated R_VariablesInAllowedPosition s d = true).
 
 Definition fuel_statement : Prop := forall r s d c,
@@ -154,21 +158,24 @@ Proof.
 Qed.
 
 (* the composition argument, for any set [known] of rules whose equivalence lemma is available
-   and which contains the four unconditional rules *)
+   (rule r on the documents satisfying [docok r]) and which contains the four unconditional rules *)
 Section Generic.
   Variable known : rule_id -> bool.
+  Variable docok : rule_id -> document -> bool.
   Hypothesis H_known : forall s d r,
-    wf_schema s = true -> doc_types_proper d = true -> known r = true -> side_ok r s d = true ->
+    wf_schema s = true -> doc_types_proper d = true -> docok r d = true ->
+    known r = true -> side_ok r s d = true ->
     (run_alone r s d <> [] <-> violated r s d = true).
   Hypothesis H_uncond : forall r, unconditional r = true -> known r = true.
+  Hypothesis H_uncond_ok : forall r d, unconditional r = true -> docok r d = true.
 
   (* C01, rule by rule *)
   Lemma known_silent s d r :
-    wf_schema s = true -> doc_types_proper d = true -> spec_valid s d = true ->
+    wf_schema s = true -> doc_types_proper d = true -> docok r d = true -> spec_valid s d = true ->
     known r = true -> run_alone r s d = [].
   Proof.
-    intros Hwf Hp Hv Hr.
-    pose proof (H_known s d r Hwf Hp Hr (spec_valid_side_ok s d r Hv)) as [Hi _].
+    intros Hwf Hp Hok Hv Hr.
+    pose proof (H_known s d r Hwf Hp Hok Hr (spec_valid_side_ok s d r Hv)) as [Hi _].
     destruct (run_alone r s d) as [|e es] eqn:E; [reflexivity|].
     rewrite (spec_valid_not_violated s d r Hv) in Hi.
     assert (e :: es <> []) as Hne by discriminate. specialize (Hi Hne). discriminate.
@@ -176,22 +183,26 @@ Section Generic.
 
   (* C02: a known rule reports *)
   Lemma known_reported s d r :
-    wf_schema s = true -> doc_types_proper d = true -> known r = true -> violated r s d = true ->
+    wf_schema s = true -> doc_types_proper d = true -> docok r d = true ->
+    known r = true -> violated r s d = true ->
     exists r', known r' = true /\ run_alone r' s d <> [].
   Proof.
-    intros Hwf Hp Hr Hv. destruct (side_ok r s d) eqn:E.
-    - exists r. split; [exact Hr|]. apply (H_known s d r Hwf Hp Hr E). exact Hv.
+    intros Hwf Hp Hok Hr Hv. destruct (side_ok r s d) eqn:E.
+    - exists r. split; [exact Hr|]. apply (H_known s d r Hwf Hp Hok Hr E). exact Hv.
     - destruct (side_fails r s d E) as [r' [Hu Hv']]. exists r'.
       split; [apply H_uncond, Hu|].
-      apply (H_known s d r' Hwf Hp (H_uncond r' Hu) (unconditional_side_ok r' s d Hu)). exact Hv'.
+      apply (H_known s d r' Hwf Hp (H_uncond_ok r' d Hu) (H_uncond r' Hu)
+               (unconditional_side_ok r' s d Hu)).
+      exact Hv'.
   Qed.
 
   Lemma known_rejected s d r :
-    wf_schema s = true -> doc_types_proper d = true -> known r = true -> violated r s d = true ->
+    wf_schema s = true -> doc_types_proper d = true -> docok r d = true ->
+    known r = true -> violated r s d = true ->
     validate s d default_plan <> Ok [].
   Proof.
-    intros Hwf Hp Hr Hv.
-    destruct (known_reported s d r Hwf Hp Hr Hv) as [r' [_ Hne]].
+    intros Hwf Hp Hok Hr Hv.
+    destruct (known_reported s d r Hwf Hp Hok Hr Hv) as [r' [_ Hne]].
     rewrite validate_eq. change (is_nil default_plan) with false. cbv iota.
     rewrite (wf_document_no_panic s d Hwf).
     match goal with |- (if ?b then _ else _) <> _ => destruct b end; [discriminate|].
@@ -212,44 +223,48 @@ Section Generic.
      their fuel by hypothesis *)
   Lemma known_accepted s d :
     wf_schema s = true -> doc_types_proper d = true -> spec_valid s d = true ->
+    (forall r, known r = true -> docok r d = true) ->
     (forall r, known r = false -> snd (run_rule r s d ctx0) = mkRes [] false) ->
     (forall r, known r = true -> r_oof (snd (run_rule r s d ctx0)) = false) ->
     validate s d default_plan = Ok [].
   Proof.
-    intros Hwf Hp Hv Hu Hf.
+    intros Hwf Hp Hv Hok Hu Hf.
     rewrite (validate_default_plan s d Hwf).
     - f_equal. apply flat_map_all_nil. intros r _. destruct (known r) eqn:Ek.
-      + apply known_silent; assumption.
+      + apply known_silent; auto.
       + unfold run_alone. rewrite (Hu r Ek). reflexivity.
     - intro r. destruct (known r) eqn:Ek; [apply Hf, Ek|]. rewrite (Hu r Ek). reflexivity.
   Qed.
 
   Lemma known_rejected_errors s d r :
-    wf_schema s = true -> doc_types_proper d = true -> known r = true -> violated r s d = true ->
+    wf_schema s = true -> doc_types_proper d = true -> docok r d = true ->
+    known r = true -> violated r s d = true ->
     (forall r, r_oof (snd (run_rule r s d ctx0)) = false) ->
     exists es, validate s d default_plan = Ok es /\ es <> [].
   Proof.
-    intros Hwf Hp Hr Hv Hf.
-    destruct (known_reported s d r Hwf Hp Hr Hv) as [r' [_ Hne]].
+    intros Hwf Hp Hok Hr Hv Hf.
+    destruct (known_reported s d r Hwf Hp Hok Hr Hv) as [r' [_ Hne]].
     eexists. split; [apply validate_default_plan; assumption|].
     apply (flat_map_nonempty_in _ _ r' (default_plan_complete r') Hne).
   Qed.
 End Generic.
 
 (* ================================================================ instance 1: all rules but
-   field merging and VariablesInAllowedPosition — closed, no external fact *)
+   field merging and VariablesInAllowedPosition — no external fact, no condition on defaults *)
 Definition known_base (r : rule_id) : bool :=
   match r with R_OverlappingFieldsCanBeMerged | R_VariablesInAllowedPosition => false | _ => true end.
+Definition any_doc (r : rule_id) (d : document) : bool := true.
 
 Lemma known_base_intro r :
   r <> R_OverlappingFieldsCanBeMerged -> r <> R_VariablesInAllowedPosition -> known_base r = true.
 Proof. destruct r; cbn; intros H1 H2; try reflexivity; exfalso; [apply H1|apply H2]; reflexivity. Qed.
 
 Lemma rule_iff_base s d r :
-  wf_schema s = true -> doc_types_proper d = true -> known_base r = true -> side_ok r s d = true ->
+  wf_schema s = true -> doc_types_proper d = true -> any_doc r d = true ->
+  known_base r = true -> side_ok r s d = true ->
   (run_alone r s d <> [] <-> violated r s d = true).
 Proof.
-  intros Hwf Hp Hr Hs.
+  intros Hwf Hp _ Hr Hs.
   destruct r; cbn [side_ok known_base] in Hs, Hr; try discriminate Hr;
     repeat match type of Hs with (_ && _) = true => apply andb_prop in Hs; destruct Hs as [Hs ?] end.
   - apply unique_operation_names_iff.
@@ -278,13 +293,15 @@ Qed.
 
 Lemma unconditional_known_base r : unconditional r = true -> known_base r = true.
 Proof. destruct r; cbn; intro H; try discriminate; reflexivity. Qed.
+Lemma unconditional_any_doc r d : unconditional r = true -> any_doc r d = true.
+Proof. reflexivity. Qed.
 
 Lemma spec_valid_rule_silent_noviap : forall s d r,
   wf_schema s = true -> doc_types_proper d = true -> spec_valid s d = true ->
   r <> R_OverlappingFieldsCanBeMerged -> r <> R_VariablesInAllowedPosition -> run_alone r s d = [].
 Proof.
   intros s d r Hwf Hp Hv H1 H2.
-  apply (known_silent known_base rule_iff_base); auto using known_base_intro.
+  apply (known_silent known_base any_doc rule_iff_base); auto using known_base_intro.
 Qed.
 
 Lemma violation_rejected_noviap : forall s d r,
@@ -293,8 +310,8 @@ Lemma violation_rejected_noviap : forall s d r,
   validate s d default_plan <> Ok [].
 Proof.
   intros s d r Hwf Hp H1 H2 Hv.
-  apply (known_rejected known_base rule_iff_base unconditional_known_base s d r);
-    auto using known_base_intro.
+  apply (known_rejected known_base any_doc rule_iff_base unconditional_known_base
+           unconditional_any_doc s d r); auto using known_base_intro.
 Qed.
 
 Lemma known_base_false r : known_base r = false ->
@@ -311,7 +328,8 @@ Lemma spec_valid_accepted_noviap : forall s d,
   validate s d default_plan = Ok [].
 Proof.
   intros s d Hwf Hp Hv Hm Hvi Hf.
-  apply (known_accepted known_base rule_iff_base s d Hwf Hp Hv).
+  apply (known_accepted known_base any_doc rule_iff_base s d Hwf Hp Hv).
+  - reflexivity.
   - intros r Hr. destruct (known_base_false r Hr) as [->| ->]; assumption.
   - intros r _. apply Hf.
 Qed.
@@ -323,14 +341,17 @@ Lemma violation_rejected_errors_noviap : forall s d r,
   exists es, validate s d default_plan = Ok es /\ es <> [].
 Proof.
   intros s d r Hwf Hp H1 H2 Hv Hf.
-  apply (known_rejected_errors known_base rule_iff_base unconditional_known_base s d r);
-    auto using known_base_intro.
+  apply (known_rejected_errors known_base any_doc rule_iff_base unconditional_known_base
+           unconditional_any_doc s d r); auto using known_base_intro.
 Qed.
 
 (* ================================================================ instance 2: all rules but
-   field merging, from the two facts proved elsewhere *)
+   field merging, from the two facts proved elsewhere; VariablesInAllowedPosition on documents
+   with constant default values *)
 Definition known_full (r : rule_id) : bool :=
   match r with R_OverlappingFieldsCanBeMerged => false | _ => true end.
+Definition doc_ok_for (r : rule_id) (d : document) : bool :=
+  match r with R_VariablesInAllowedPosition => defaults_const d | _ => true end.
 
 Lemma known_full_intro r : r <> R_OverlappingFieldsCanBeMerged -> known_full r = true.
 Proof. destruct r; cbn; intros H1; try reflexivity; exfalso; apply H1; reflexivity. Qed.
@@ -340,49 +361,63 @@ Lemma known_full_false r : known_full r = false -> r = R_OverlappingFieldsCanBeM
 Proof. destruct r; cbn; intro H; try discriminate; auto. Qed.
 Lemma unconditional_known_full r : unconditional r = true -> known_full r = true.
 Proof. destruct r; cbn; intro H; try discriminate; reflexivity. Qed.
+Lemma unconditional_doc_ok_for r d : unconditional r = true -> doc_ok_for r d = true.
+Proof. destruct r; cbn; intro H; try discriminate; reflexivity. Qed.
+Lemma doc_ok_for_intro r d :
+  (r = R_VariablesInAllowedPosition -> defaults_const d = true) -> doc_ok_for r d = true.
+Proof. destruct r; cbn; intro H; try reflexivity. apply H. reflexivity. Qed.
+Lemma doc_ok_for_const r d : defaults_const d = true -> doc_ok_for r d = true.
+Proof. intro H. apply doc_ok_for_intro. intros _. exact H. Qed.
 
 Section Compose.
   Hypothesis H_viap : viap_statement.
 
   Lemma rule_iff s d r :
-    wf_schema s = true -> doc_types_proper d = true -> known_full r = true -> side_ok r s d = true ->
+    wf_schema s = true -> doc_types_proper d = true -> doc_ok_for r d = true ->
+    known_full r = true -> side_ok r s d = true ->
     (run_alone r s d <> [] <-> violated r s d = true).
   Proof.
-    intros Hwf Hp Hr Hs. destruct (known_base r) eqn:Eb.
-    - apply rule_iff_base; assumption.
+    intros Hwf Hp Hok Hr Hs. destruct (known_base r) eqn:Eb.
+    - apply rule_iff_base; auto.
     - destruct (known_base_false r Eb) as [->| ->]; [discriminate Hr|].
-      cbn [side_ok] in Hs.
+      cbn [side_ok doc_ok_for] in Hs, Hok.
       repeat match type of Hs with (_ && _) = true => apply andb_prop in Hs; destruct Hs as [Hs ?] end.
       apply H_viap; assumption.
   Qed.
 
   Lemma spec_valid_rule_silent_sec : forall s d r,
     wf_schema s = true -> doc_types_proper d = true -> spec_valid s d = true ->
-    r <> R_OverlappingFieldsCanBeMerged -> run_alone r s d = [].
+    r <> R_OverlappingFieldsCanBeMerged ->
+    (r = R_VariablesInAllowedPosition -> defaults_const d = true) ->
+    run_alone r s d = [].
   Proof.
-    intros s d r Hwf Hp Hv H1.
-    apply (known_silent known_full rule_iff); auto using known_full_intro.
+    intros s d r Hwf Hp Hv H1 Hc.
+    apply (known_silent known_full doc_ok_for rule_iff);
+      auto using known_full_intro, doc_ok_for_intro.
   Qed.
 
   Lemma violation_rejected_sec : forall s d r,
     wf_schema s = true -> doc_types_proper d = true ->
     r <> R_OverlappingFieldsCanBeMerged -> violated r s d = true ->
+    (r = R_VariablesInAllowedPosition -> defaults_const d = true) ->
     validate s d default_plan <> Ok [].
   Proof.
-    intros s d r Hwf Hp H1 Hv.
-    apply (known_rejected known_full rule_iff unconditional_known_full s d r);
-      auto using known_full_intro.
+    intros s d r Hwf Hp H1 Hv Hc.
+    apply (known_rejected known_full doc_ok_for rule_iff unconditional_known_full
+             unconditional_doc_ok_for s d r); auto using known_full_intro, doc_ok_for_intro.
   Qed.
 
   Hypothesis H_fuel : fuel_statement.
 
   Lemma spec_valid_accepted_sec : forall s d,
-    wf_schema s = true -> doc_types_proper d = true -> spec_valid s d = true ->
+    wf_schema s = true -> doc_types_proper d = true -> defaults_const d = true ->
+    spec_valid s d = true ->
     snd (run_rule R_OverlappingFieldsCanBeMerged s d ctx0) = mkRes [] false ->
     validate s d default_plan = Ok [].
   Proof.
-    intros s d Hwf Hp Hv Hm.
-    apply (known_accepted known_full rule_iff s d Hwf Hp Hv).
+    intros s d Hwf Hp Hc Hv Hm.
+    apply (known_accepted known_full doc_ok_for rule_iff s d Hwf Hp Hv).
+    - intros r _. apply doc_ok_for_const, Hc.
     - intros r Hr. rewrite (known_full_false r Hr). exact Hm.
     - intros r Hr. apply H_fuel, known_full_true, Hr.
   Qed.
@@ -390,12 +425,13 @@ Section Compose.
   Lemma violation_rejected_errors_sec : forall s d r,
     wf_schema s = true -> doc_types_proper d = true ->
     r <> R_OverlappingFieldsCanBeMerged -> violated r s d = true ->
+    (r = R_VariablesInAllowedPosition -> defaults_const d = true) ->
     r_oof (snd (run_rule R_OverlappingFieldsCanBeMerged s d ctx0)) = false ->
     exists es, validate s d default_plan = Ok es /\ es <> [].
   Proof.
-    intros s d r Hwf Hp H1 Hv Hm.
-    apply (known_rejected_errors known_full rule_iff unconditional_known_full s d r);
-      auto using known_full_intro.
+    intros s d r Hwf Hp H1 Hv Hc Hm.
+    apply (known_rejected_errors known_full doc_ok_for rule_iff unconditional_known_full
+             unconditional_doc_ok_for s d r); auto using known_full_intro, doc_ok_for_intro.
     intro r0. destruct (known_full r0) eqn:Ek.
     - apply H_fuel, known_full_true, Ek.
     - rewrite (known_full_false r0 Ek). exact Hm.
